@@ -2,7 +2,7 @@
    parser's input; an unclosed block comment is an error located at its opener.
    Property theorems only: each is closed by [exact] of a lemma of
    Proofs.PreprocessProofs / Proofs.ParseEntryProofs (the two comment-content
-   lemmas), followed by Print Assumptions.  All 22 are statements about the
+   lemmas), followed by Print Assumptions.  All 21 are statements about the
    stripper [preprocess]; see the note before the Examples for the parse
    entry points.
 
@@ -79,25 +79,33 @@ Print Assumptions C05_shapes_cover_every_text.
 
 (* --- the unclosed-comment error ---------------------------------------- *)
 
-(* error iff a block comment is open at the end of the input, and the reported
-   offset is that of its opener *)
-Theorem C05_unclosed_comment_iff_open_block : forall s o,
-  preprocess s = Err (unclosed o) <-> open_block_at_end s o.
-Proof. exact unclosed_comment_iff_open_block. Qed.
-Print Assumptions C05_unclosed_comment_iff_open_block.
-
-(* there is no other failure: no panic, no other error *)
-Theorem C05_preprocess_total : forall s,
-  (exists t, preprocess s = Ok t) \/ exists o, preprocess s = Err (unclosed o).
-Proof. exact preprocess_total. Qed.
-Print Assumptions C05_preprocess_total.
-
-(* C04: the reported offset is the byte length of the text before a `/*` *)
+(* C04: the reported offset is the byte length of the text before THE opener:
+   the `/*` whose prefix [a] ends outside every comment ([ends_in_code a]: complete
+   comments and comment-free code that does not end in a slash) and that no `*/`
+   follows.  An equivalence: every such text is an error at exactly that offset.
+   (Before the third audit the statement had no clause on [a] and was satisfied
+   by o = 0 and by o = 3 for slash star blank slash star blank x.) *)
 Theorem C05_unclosed_comment_location_is_byte_offset_of_opener : forall s o,
-  preprocess s = Err (unclosed o) ->
-  exists a c, s = a ++ [47; 42] ++ c /\ o = text_bytes a /\ no_close c.
-Proof. exact unclosed_comment_location_is_byte_offset_of_opener. Qed.
+  preprocess s = Err (unclosed o) <->
+  exists a c, s = a ++ [47; 42] ++ c /\ ends_in_code a /\ no_close c /\ o = text_bytes a.
+Proof. exact unclosed_comment_at_first_unclosed_opener. Qed.
 Print Assumptions C05_unclosed_comment_location_is_byte_offset_of_opener.
+
+(* ... and that decomposition is unique: a text has at most one `/*` that opens a
+   comment which is never closed, so the offset above is pinned *)
+Theorem C05_unclosed_opener_unique : forall a c a' c',
+  a ++ [47; 42] ++ c = a' ++ [47; 42] ++ c' ->
+  ends_in_code a -> ends_in_code a' -> no_close c -> no_close c' -> a = a' /\ c = c'.
+Proof. exact unclosed_opener_unique. Qed.
+Print Assumptions C05_unclosed_opener_unique.
+
+(* NOT obligations (demoted in the third audit, kept as lemmas of
+   Proofs.PreprocessProofs because other proofs use them):
+   [unclosed_comment_iff_open_block] (error iff the reference automaton ends in a
+   block-comment state: [dfinish] unfolded, definitional) and [preprocess_total]
+   (the result is Ok or Err (unclosed _): a one-line case analysis on the final
+   state of the automaton; it says nothing about panics of the Rust function,
+   which the run-time comparison observes). *)
 
 (* C04: the label range o .. o+2 lies in the file, on scalar boundaries, and
    covers the slash and the star of the opener *)
@@ -223,6 +231,36 @@ Example C05_witnesses :
   preprocess [97; 47; 42; 233; 10; 42; 47; 98] = Ok [97; 32; 32; 32; 32; 32; 32; 32; 98] /\
   blank_comments [97; 47; 42; 233; 10; 42; 47; 98] = [97; 32; 32; 32; 32; 32; 32; 32; 98].
 Proof. vm_compute. repeat split; reflexivity. Qed.
+
+(* slash star blank slash star blank x: the second `/*` is comment text.  The
+   error is at offset 0; the only decomposition that meets the theorem is a = [];
+   the prefix slash star blank does not end in code although the text also reads
+   (slash star blank) ++ slash star ++ (blank x) *)
+Example C05_nested_opener_pinned :
+  preprocess [47; 42; 32; 47; 42; 32; 120] = Err (unclosed 0) /\
+  [47; 42; 32; 47; 42; 32; 120] = [47; 42; 32] ++ [47; 42] ++ [32; 120] /\
+  ~ ends_in_code [47; 42; 32] /\
+  (forall a c, [47; 42; 32; 47; 42; 32; 120] = a ++ [47; 42] ++ c -> ends_in_code a -> no_close c -> a = []) /\
+  (* a closed comment before the opener: the prefix ends in code, offset 5 *)
+  ends_in_code [47; 42; 42; 47; 32] /\ preprocess [47; 42; 42; 47; 32; 47; 42] = Err (unclosed 5).
+Proof.
+  assert (Hnil : plain_code []) by (apply plain_code_no_slash; intros []).
+  assert (Hnc : forall l, ~ In 47 l -> no_close l).
+  { intros l Hin (u & v & ->). apply Hin. apply in_or_app. right. right. now left. }
+  repeat split.
+  - intro H. pose proof (proj2 (C05_unclosed_comment_location_is_byte_offset_of_opener
+      ([47; 42; 32] ++ [47; 42] ++ []) 3) (ex_intro _ [47; 42; 32] (ex_intro _ []
+        (conj eq_refl (conj H (conj (Hnc [] ltac:(intros [])) eq_refl)))))) as E.
+    vm_compute in E. discriminate.
+  - intros a c E Ha Hc.
+    assert (N0 : no_close [32; 47; 42; 32; 120]).
+    { intros (u & v & H). repeat (destruct u as [|? u]; try discriminate). }
+    destruct (C05_unclosed_opener_unique a c [] [32; 47; 42; 32; 120] (eq_sym E) Ha (eic_code [] Hnil) Hc N0) as (-> & _).
+    reflexivity.
+  - change [47; 42; 42; 47; 32] with ([] ++ [47; 42] ++ [] ++ [42; 47] ++ [32]).
+    apply eic_block; [exact Hnil|apply Hnc; intros []|].
+    apply eic_code. apply plain_code_no_slash. intros [H|[]]; discriminate.
+Qed.
 
 Example C05_hypotheses_satisfiable :
   plain_code [97; 47; 32] /\ no_close [42; 42; 32; 47; 42] /\ no_newline [42; 47] /\
